@@ -83,6 +83,8 @@ class C17(SmallSuite):
                 else:
                     x = rng.random()
                 ops.append({"op": "image", "x": x})
+                if rng.random() < 0.1:
+                    ops[-1]["x_as"] = rng.choice(["np.float64", "array0d"])
                 n_ret += 1
             elif u < 0.75:
                 kind = rng.choice(["inverse", "preimages"])
@@ -174,9 +176,18 @@ class C17(SmallSuite):
             try:
                 if k == "image":
                     x = op["x"]
-                    got = ev.GetImage(x)
+                    xa = x
+                    if op.get("x_as") == "np.float64":
+                        xa = np.float64(x)
+                    elif op.get("x_as") == "array0d":
+                        xa = np.array(float(x))      # what np.squeeze / a reduction / an element of np.nditer hands over
+                    rep.probes["image_argument_" + op.get("x_as", "float")] += 1
+                    got = ev.GetImage(xa)
                     want = Evolvent(np.array(cur[0]), np.array(cur[1]), N, m).GetImage(x)
                     events.append("image %s -> %s" % (core.fhex(x), core.vhex(got)))
+                    if float(xa) != float(x):
+                        bad("argument_modified", "op %d GetImage(x) changed its argument (a %s) from %r to %r" % (i, type(xa).__name__, x, float(xa)))
+                        break
                     if not _arr_eq(got, want):
                         bad("history_dependent", "op %d GetImage(%r) = %r, a fresh object answers %r" % (i, x, list(got), list(want)))
                         break
